@@ -163,11 +163,17 @@ func (h sfHeaders) HashAll() uint64 {
 type sfWriter struct {
 	buf    bytes.Buffer
 	writes int
+	// broken: this client's connection is gone (broken pipe) although its context is not
+	// cancelled: its own request fails, nobody else's may
+	broken bool
 }
 
 func (w *sfWriter) Write(p []byte) (int, error) {
 	simrt.Yield("client.write")
 	w.writes++
+	if w.broken {
+		return 0, errors.New("write: broken pipe")
+	}
 	return w.buf.Write(p)
 }
 
@@ -242,6 +248,8 @@ type sfReq struct {
 	varV    int
 	hdr     int
 	cancelK int // cancel own context after this many canceller steps (-1: never)
+	// brokenPipe: the client's writer fails (fault); treated like its own cancellation by the oracle
+	brokenPipe bool
 
 	out       string
 	err       string
@@ -259,7 +267,7 @@ func sfExec(res *resolve.Resolver, ctx context.Context, q *sfReq) (out, errs str
 	rc.Variables = astjson.MustParse(vars)
 	rc.VariablesHash = core.StrHash(vars)
 	rc.SubgraphHeadersBuilder = sfHeaders{set: q.hdr}
-	w := &sfWriter{}
+	w := &sfWriter{broken: q.brokenPipe}
 	info, err := res.ArenaResolveGraphQLResponse(rc, q.plan.resp, w)
 	if err != nil {
 		errs = err.Error()
@@ -292,6 +300,10 @@ func runSF(r *core.Run) {
 		q := &sfReq{client: c, plan: plans[s.plan], varV: s.v, hdr: s.h, cancelK: -1}
 		if r.Flag("nocancel") == "" && W.Prob(0.25) {
 			q.cancelK = W.Intn(30)
+		}
+		if env.faultMode && r.F.Prob(0.08) {
+			q.brokenPipe = true
+			r.Fault("client_broken_pipe")
 		}
 		reqs = append(reqs, q)
 	}
@@ -480,9 +492,9 @@ func canonResp(out string) string {
 // sfCompare is the C11 oracle for one participant.
 func sfCompare(r *core.Run, i int, q, ref *sfReq, all []*sfReq) {
 	const prop = "C11"
-	if q.cancelled {
-		// its own cancellation: any of (shared result, own context error, partial failure) is
-		// acceptable for *this* client
+	if q.cancelled || q.brokenPipe {
+		// its own cancellation or its own broken connection: any of (shared result, own error,
+		// partial failure) is acceptable for *this* client
 		r.Probe("cancelled_client_returned")
 		return
 	}
